@@ -1269,7 +1269,19 @@ struct array : static_array<T, D, Alloc> {
 	friend BOOST_MULTI_HD constexpr auto move(array& self) -> decltype(auto) { return std::move(self); }
 	friend BOOST_MULTI_HD constexpr auto move(array&& self) -> decltype(auto) { return std::move(self); }
 
-	array(array&& other, typename array::allocator_type const& alloc) noexcept : static_array<T, D, Alloc>{std::move(other), alloc} {
+	array(array&& other, typename array::allocator_type const& alloc) noexcept(multi::allocator_traits<typename array::allocator_type>::is_always_equal::value)
+	: static_array<T, D, Alloc>{alloc} {
+		if constexpr(!multi::allocator_traits<typename array::allocator_type>::is_always_equal::value) {
+			if(this->alloc() != other.alloc()) {  // a block cannot change allocator: the elements are moved one by one instead
+				array tmp(other().element_moved(), this->alloc());
+				other.clear();
+				this->base_            = std::exchange(tmp.base_, nullptr);
+				this->layout_mutable() = std::exchange(tmp.layout_mutable(), typename array::layout_type(typename array::extensions_type{}));
+				return;
+			}
+		}
+		this->base_            = std::exchange(other.base_, nullptr);
+		this->layout_mutable() = std::exchange(other.layout_mutable(), typename array::layout_type(typename array::extensions_type{}));
 		assert(this->stride() != 0);
 	}
 	array(array&& other) noexcept : array{std::move(other), other.get_allocator()} {
